@@ -361,6 +361,69 @@ def update_violations(dic):
     return bad
 
 
+def history_violations(ck, U, spec, real):
+    """checklist 4/5: (a) the parsed specification handed to the loader is not modified by loading it; (b) loading the SAME
+    specification a second time in this process gives the same outcome and a disjoint set of objects (no module-level
+    cache hands out an object of the first load); (c) copy.deepcopy of the loaded registry is an isomorphic, disjoint
+    graph that keeps its own sharing (an update inside the copy is seen by the copy's holders, not by the original)"""
+    bad = []
+    oc = real["outcome"]
+    if oc[0] != "ok":
+        # a rejected specification must be rejected the same way the second time
+        again = real_pipeline(U, spec)["outcome"]
+        if again[0] != oc[0] or (oc[0] == "err" and again[1] != oc[1]):
+            bad.append(("second-load-differs", summar(oc), summar(again)))
+        return bad
+    # (a) the loop of main() on a private copy of the expanded data: unchanged afterwards
+    data = copy.deepcopy(real["expanded"])
+    before = json.dumps(data, sort_keys=False)
+    dic2, results2 = {}, []
+    try:
+        for element in data:
+            r = U.process_objects(element, dic2)
+            results2.append(r if isinstance(r, list) else [r])
+    except Exception as e:  # noqa: BLE001
+        return [("second-load-differs", "accepted", f"{type(e).__name__}: {e}"[:200])]
+    if json.dumps(data, sort_keys=False) != before:
+        bad.append(("specification-mutated-by-loading",))
+    # (b)
+    g1 = json.dumps(canon_py(oc[1], oc[2]), sort_keys=True)
+    g2 = json.dumps(canon_py(results2, dic2), sort_keys=True)
+    if g1 != g2:
+        bad.append(("second-load-differs", "graph"))
+    first = {id(o) for o, _h, _a in all_holders(oc[1], oc[2])}
+    shared = [o.id for o, _h, _a in all_holders(results2, dic2) if id(o) in first]
+    if shared:
+        bad.append(("object-shared-between-two-loads", shared[:5]))
+    bad += sharing_violations(results2, dic2)
+    # (c)
+    try:
+        dic3 = copy.deepcopy(dic2)
+    except Exception as e:  # noqa: BLE001
+        ck.bucket("deepcopy-raises/" + type(e).__name__)
+        return bad
+    res3 = [[dic3[o.id] if getattr(o, "id", None) in dic3 else o for o in rs] for rs in results2]
+    res3 = [[o for o in rs if any(o is v for v in dic3.values())] for rs in res3]
+    g3 = json.dumps(canon_py([], dic3), sort_keys=True)
+    g2r = json.dumps(canon_py([], dic2), sort_keys=True)
+    if g3 != g2r:
+        bad.append(("deepcopy-not-isomorphic",))
+    second = {id(o) for o, _h, _a in all_holders([], dic2)}
+    if any(id(o) in second for o, _h, _a in all_holders([], dic3)):
+        bad.append(("deepcopy-shares-objects-with-original",))
+    bad += [("deepcopy:" + b[0],) + tuple(b[1:]) for b in sharing_violations([], dic3)]
+    # an update through the copy's registry: seen by the copy's distributions, not by the original's parameters
+    import torch
+
+    orig = {k: v.tensor.detach().clone() for k, v in dic2.items() if type(v).__name__ == "Parameter"}
+    bad += [("deepcopy:" + b[0],) + tuple(b[1:]) for b in update_violations(dic3)]
+    for k, t in orig.items():
+        if not torch.equal(dic2[k].tensor.detach(), t):
+            bad.append(("update-of-copy-seen-by-original", k))
+            break
+    return bad
+
+
 def expected_reject(tag):
     return tag is not None and tag[1]
 
@@ -472,6 +535,9 @@ def summar(oc):
     return {"accepted": False, "why": oc[1]}
 
 
+HISTORY_RATE = [0.5]
+
+
 def oracle(ck, U, spec, real, tag, found):
     """the property's predicates on the implementation's own result; appends to `found`"""
     oc = real["outcome"]
@@ -488,7 +554,15 @@ def oracle(ck, U, spec, real, tag, found):
         elif expected_reject(tag):
             sig = "duplicate-id-accepted" if tag[0].startswith("dup") else f"malformed-accepted:{tag[0]}"
             found.append((sig, spec, tag, []))
-    elif oc[0] == "err" and oc[1] and oc[1][-1][0] == "duplicate" and "expanded" in real \
+    if "expanded" in real and (len(found) == 0) and ck.rng.random() < HISTORY_RATE[0]:
+        try:
+            hb = history_violations(ck, U, spec, real)
+        except Exception as e:  # noqa: BLE001  (hygiene: an unexpected shape is a recorded finding, not a harness crash)
+            hb = [("history-check-raised", f"{type(e).__name__}: {e}"[:200])]
+        if hb:
+            found.append(("history:" + hb[0][0], spec, tag, [list(map(str, b)) for b in hb]))
+        ck.bucket("history-checked")
+    if oc[0] == "err" and oc[1] and oc[1][-1][0] == "duplicate" and "expanded" in real \
             and not dup_literal_ids(real["expanded"]):
         # "already exists" for an id that the (cleaned, expanded) specification defines exactly once
         found.append(("duplicate-reported-for-unique-id", spec, tag, [list(oc[1][-1])]))
@@ -556,6 +630,8 @@ def run(ck: Check):
                 real3 = real_pipeline(U, strip_comments(copy.deepcopy(commented)))
                 if not same_outcome(real, real2) or not same_outcome(real3, real2):
                     found.append(("comment-has-effect", commented, None, [summar(real["outcome"]), summar(real2["outcome"])]))
+        # ---- the specifications the CLI emits (another construction route): loaded as torchtree does, same predicates
+        cli_route(ck, found)
         # ---- json_factory helpers (implementation only)
         try:
             import c13_factory
@@ -615,6 +691,12 @@ def small_family():
     out.append(([{"id": "t", "type": "VSelf", "inner": {"id": "m", "type": "VOne", "x": leaf("t")}}], ("dup-small", True, {})))
     out += tree_family()
     out += falsy_family()
+    # ids that are falsy / odd strings themselves
+    for odd in ("", "0", "False", "None", " a b ", "é.ü"):
+        out.append(([leaf(odd), {"id": "p", "type": "VPair", "a": odd, "b": odd}], None))
+        out.append(([leaf(odd), leaf(odd)], ("dup-small", True, {})))
+        out.append(([{"id": odd, "type": "VOne", "x": leaf(odd)}], ("dup-small", True, {})))
+        out.append(([{"id": "p", "type": "VOne", "x": odd}, leaf(odd)], ("forward", True, {})))
     # references: shared, forward, dangling, to the enclosing object
     out.append(([leaf("a"), {"id": "p", "type": "VPair", "a": "a", "b": "a"}], None))
     out.append(([{"id": "p", "type": "VOne", "x": "a"}, leaf("a")], ("forward", True, {})))
@@ -705,6 +787,48 @@ def tree_family():
     t2["internal_heights"]["id"] = "h2"
     out.append(([taxa, t1, t2], None))
     return out
+
+
+def cli_route(ck, found):
+    """construction route `torchtree-cli … | torchtree`: every id of the emitted file denotes one shared instance"""
+    try:
+        import c19_cli as C
+        import c19_space as S
+    except ImportError:
+        ck.notes.append("cli route not available")
+        return
+    base = {"model": "HKY", "categories": 4, "invariant": True, "grid": None, "cutoff": None, "family": "meanfield",
+            "distribution": "Normal", "init": None}
+    cfgs = [dict(base, cmd="hmc", clock="strict", heights="ratio", treeprior="constant"),
+            dict(base, cmd="mcmc", clock="ucln", heights="ratio", treeprior="skyride"),
+            dict(base, cmd="advi", clock="strict", heights="ratio", treeprior="skygrid"),
+            dict(base, cmd="map", clock=None, heights="ratio", treeprior=None),
+            dict(base, cmd="advi", clock=None, heights="ratio", treeprior=None, model="GTR"),
+            dict(base, cmd="hmc", clock="strict", heights="shift", treeprior="exponential", model="SRD06")]
+    data = C.data_dir()
+    try:
+        for cfg in cfgs:
+            cfg = S.normalise(cfg)
+            argv = S.to_argv(cfg, data)
+            try:
+                import contextlib
+                import io
+
+                with contextlib.redirect_stdout(io.StringIO()), contextlib.redirect_stderr(io.StringIO()):
+                    _em, text, _recs, _wc = C.run_cli(argv, record=False)
+                    dic, objs = C.dry_load(text)
+            except Exception as e:  # noqa: BLE001  (C19's business; here only what loads is examined)
+                ck.bucket("cli-route/not-loaded/" + type(e).__name__)
+                continue
+            results = [o if isinstance(o, list) else [o] for o in objs]
+            bad = sharing_violations(results, dic)
+            ck.case(key="cli:" + " ".join(argv[5:]) + argv[0], bucket="cli-route/" + ("ok" if not bad else "violates"),
+                    sample=None)
+            if bad:
+                found.append(("cli-emitted:" + bad[0][0], {"argv": " ".join(S.to_argv(cfg, Path("DATA")))}, None,
+                              [list(map(str, b)) for b in bad[:5]]))
+    finally:
+        C.cleanup()
 
 
 def falsy_family():
